@@ -13,11 +13,13 @@
 package main
 
 import (
+	"encoding/json"
 	"fmt"
 	"math/big"
+	"os"
 	"runtime"
 	"sort"
-	"sync"
+	"strings"
 
 	"github.com/bytom/bytom/consensus"
 	"github.com/bytom/bytom/errors"
@@ -27,6 +29,7 @@ import (
 	"github.com/bytom/bytom/protocol/vm"
 
 	"verif/lib/ev"
+	"verif/lib/par"
 )
 
 // ---------------------------------------------------------------------------
@@ -250,6 +253,8 @@ type implResult struct {
 	BTMValue uint64
 	TxFee    uint64
 	ID       bc.Hash
+	tx       *types.Tx // the mapped transaction (nil when MapTx panicked); used by the batch part
+	data     *types.TxData
 }
 
 var valueErrs = map[error]string{
@@ -290,6 +295,8 @@ func classify(err error) (class string, isValue bool) {
 	return "other:" + root.Error(), false
 }
 
+func noContracts(prog []byte) ([]byte, error) { return nil, fmt.Errorf("no contracts in C01") }
+
 func runImpl(c caseTx) (res implResult) {
 	defer func() {
 		if r := recover(); r != nil {
@@ -300,6 +307,7 @@ func runImpl(c caseTx) (res implResult) {
 	d := c.build()
 	tx := types.NewTx(*d)
 	res.ID = tx.ID
+	res.tx, res.data = tx, d
 	blk := &bc.Block{BlockHeader: &bc.BlockHeader{Height: 100, Version: 1}}
 	for _, in := range c.Ins {
 		if in.Kind == inCoinbase {
@@ -307,7 +315,7 @@ func runImpl(c caseTx) (res implResult) {
 			break
 		}
 	}
-	gs, err := validation.ValidateTx(tx.Tx, blk, func(prog []byte) ([]byte, error) { return nil, fmt.Errorf("no contracts in C01") })
+	gs, err := validation.ValidateTx(tx.Tx, blk, noContracts)
 	if err != nil {
 		res.Class, res.IsValue = classify(err)
 		res.Err = err.Error()
@@ -323,51 +331,68 @@ func runImpl(c caseTx) (res implResult) {
 // comparison
 
 type viol struct {
-	key, what string
-	c         caseTx
-	extra     map[string]interface{}
+	Key, What string
+	C         caseTx
+	Extra     map[string]interface{}
 }
 
+// stats of one shape; crosses the worker process boundary as JSON
 type stats struct {
-	evals, enumerated, mutants  int
-	validated, validatedMutants int
-	outcomes                    map[string]int
-	viols                       []viol
-	obs                         map[string]string // observation class -> first case
-	maxArity                    int
-	refClasses                  map[string]int
-	sample                      []interface{}
-	overflowAdjacentAccepted    int
-	overflowAdjacentRejected    int
-	gasSufficientAccepted       int
+	Evals, Enumerated, Mutants  int
+	Validated, ValidatedMutants int
+	Outcomes                    map[string]int
+	Viols                       []viol
+	Obs                         map[string]string // observation class -> first case
+	MaxArity                    int
+	RefClasses                  map[string]int
+	Sample                      []interface{}
+	OverflowAdjacentAccepted    int
+	OverflowAdjacentRejected    int
+	GasSufficientAccepted       int
+	// batch part
+	Batches, BatchRuns, BatchVerdicts int
+	BatchAccepted, BatchesSameInputs  int
+	BatchOutcomes                     map[string]int
+	Listing                           []string `json:",omitempty"` // mode "list": the sequences of one family
+	ForcedUnavailable                 string   `json:",omitempty"` // the one-worker schedule could not be established
 }
 
 func (st *stats) addViol(v viol) {
-	for _, o := range st.viols {
-		if o.key == v.key {
+	for _, o := range st.Viols {
+		if o.Key == v.Key {
 			return
 		}
 	}
-	st.viols = append(st.viols, v)
+	st.Viols = append(st.Viols, v)
 }
 
 func newStats() *stats {
-	return &stats{outcomes: map[string]int{}, obs: map[string]string{}, refClasses: map[string]int{}}
+	return &stats{Outcomes: map[string]int{}, Obs: map[string]string{}, RefClasses: map[string]int{}, BatchOutcomes: map[string]int{}}
 }
 
 const gasSufficientFee = 10000000 // fee/200 = 50000 gas >> storage gas 300 + a few OP_TRUE
 
-// compare runs one case through both sides; returns whether the implementation accepted it.
-func compare(c caseTx, st *stats, mutant bool) bool {
+// unit = one transaction evaluated on both sides (kept for the batch part)
+type unit struct {
+	c   caseTx
+	ref ledger
+	got implResult
+}
+
+func (u *unit) accepted() bool { return u != nil && u.got.Class == "ok" }
+
+// compare runs one case through both sides; accepted() of the result tells whether the implementation accepted it.
+func compare(c caseTx, st *stats, mutant bool) *unit {
 	ref := reference(c)
 	got := runImpl(c)
-	st.evals++
+	u := &unit{c, ref, got}
+	st.Evals++
 	if mutant {
-		st.mutants++
+		st.Mutants++
 	} else {
-		st.enumerated++
+		st.Enumerated++
 	}
-	st.outcomes[got.Class]++
+	st.Outcomes[got.Class]++
 	rep := func(extra map[string]interface{}) map[string]interface{} {
 		if extra == nil {
 			extra = map[string]interface{}{}
@@ -386,22 +411,22 @@ func compare(c caseTx, st *stats, mutant bool) bool {
 		if ref.Coinbases > 1 {
 			k = "validatetx-panics:two-coinbase-inputs"
 		}
-		if _, ok := st.obs[k]; !ok {
-			st.obs[k] = c.String() + " -> " + got.Err
+		if _, ok := st.Obs[k]; !ok {
+			st.Obs[k] = c.String() + " -> " + got.Err
 		}
-		return false
+		return u
 	}
 
 	wellFormed := ref.Conserved && ref.InRange && ref.Sourced && ref.ShapeOK && ref.VoteOK
 	switch {
 	case !ref.Conserved:
-		st.refClasses["not-conserved"]++
+		st.RefClasses["not-conserved"]++
 	case !wellFormed:
-		st.refClasses["conserved-but-out-of-range-or-shape"]++
+		st.RefClasses["conserved-but-out-of-range-or-shape"]++
 	case ref.Fee.Cmp(big.NewInt(gasSufficientFee)) >= 0:
-		st.refClasses["conserved-gas-sufficient"]++
+		st.RefClasses["conserved-gas-sufficient"]++
 	default:
-		st.refClasses["conserved-low-fee"]++
+		st.RefClasses["conserved-low-fee"]++
 	}
 
 	if got.Class == "ok" {
@@ -426,25 +451,25 @@ func compare(c caseTx, st *stats, mutant bool) bool {
 			}
 		}
 		if !ref.InRange {
-			st.overflowAdjacentAccepted++
+			st.OverflowAdjacentAccepted++
 		}
 		if ref.Fee.Cmp(big.NewInt(gasSufficientFee)) >= 0 {
-			st.gasSufficientAccepted++
+			st.GasSufficientAccepted++
 		}
 		if mutant {
-			st.validatedMutants++
+			st.ValidatedMutants++
 		} else {
-			st.validated++
+			st.Validated++
 		}
-		if len(st.sample) < 2 && len(c.Ins)+len(c.Outs) >= 3 {
-			st.sample = append(st.sample, map[string]interface{}{"tx": c.String(), "verdict": "ok", "fee": got.BTMValue})
+		if len(st.Sample) < 2 && len(c.Ins)+len(c.Outs) >= 3 {
+			st.Sample = append(st.Sample, map[string]interface{}{"tx": c.String(), "verdict": "ok", "fee": got.BTMValue})
 		}
-		return true
+		return u
 	}
 
 	// ---- completeness
 	if !ref.InRange {
-		st.overflowAdjacentRejected++
+		st.OverflowAdjacentRejected++
 	}
 	if wellFormed {
 		if got.IsValue {
@@ -454,7 +479,7 @@ func compare(c caseTx, st *stats, mutant bool) bool {
 			st.addViol(viol{"rejected-conserved-gas-sufficient:" + got.Class, fmt.Sprintf("conserved, in-range transaction with fee %s rejected with %s: %s", ref.Fee, got.Class, c), c, rep(nil)})
 		}
 	}
-	return false
+	return u
 }
 
 // ---------------------------------------------------------------------------
@@ -599,7 +624,25 @@ func pickAlphabets(s shape, thorough bool) alphabets {
 	return alphabets{mid5, []uint64{0, 1, 1<<63 - 1, 1 << 63}}
 }
 
-func enumerate(s shape, thorough bool, st *stats, stop func() bool) {
+// selection of what the batch part does for a shape (the coordinator narrows it down after a worker died)
+type selection struct {
+	Mode   string // "" everything, "count" no batch part, "family" only family F, "list" describe the sequences of family F, "seq" only sequence Q of family F
+	Family int
+	Seq    int
+}
+
+func (sel selection) wants(family int) bool {
+	switch sel.Mode {
+	case "":
+		return true
+	case "count":
+		return false
+	}
+	return family == sel.Family
+}
+
+func enumerate(s shape, thorough bool, st *stats, sc *scaffold, sel selection) {
+	family := 0
 	al := pickAlphabets(s, thorough)
 	c := caseTx{Ins: make([]item, len(s.ins)), Outs: make([]item, len(s.outs))}
 	for i, k := range s.ins {
@@ -609,27 +652,25 @@ func enumerate(s shape, thorough bool, st *stats, stop func() bool) {
 		c.Outs[i] = item{Kind: k, Asset: k % 3, Tag: i + 1}
 	}
 	arity := len(s.ins) + len(s.outs)
-	if arity > st.maxArity {
-		st.maxArity = arity
+	if arity > st.MaxArity {
+		st.MaxArity = arity
 	}
 	single := shapeLevelReject(s) && arity > 3 // amounts cannot matter: one representative assignment per input value
 	var recOut func(j int)
 	var recIn func(i int)
-	n := 0
-	halted := false
 	recOut = func(j int) {
-		if halted {
-			return
-		}
 		if j == len(c.Outs) {
-			n++
-			if n%256 == 0 && stop() {
-				halted = true
-				return
-			}
 			cc := caseTx{append([]item{}, c.Ins...), append([]item{}, c.Outs...)}
-			if compare(cc, st, false) {
-				mutate(cc, st)
+			if a := compare(cc, st, false); a.accepted() {
+				ms := mutants(cc)
+				us := make([]*unit, len(ms))
+				for i, m := range ms {
+					us[i] = compare(m, st, true)
+				}
+				family++
+				if depth := batchDepth(s, thorough); depth > 0 && sel.wants(family-1) {
+					batchFamily(a, us, depth, sel, st, sc)
+				}
 			}
 			return
 		}
@@ -676,107 +717,142 @@ func enumerate(s shape, thorough bool, st *stats, stop func() bool) {
 
 // every single-field mutation of a transaction that validated: amount +-1, asset swap,
 // drop / duplicate of each input and output.
-func mutate(c caseTx, st *stats) {
+func mutants(c caseTx) []caseTx {
+	var out []caseTx
 	clone := func() caseTx { return caseTx{append([]item{}, c.Ins...), append([]item{}, c.Outs...)} }
 	for i, in := range c.Ins {
 		if in.Kind != inCoinbase {
 			m := clone()
 			m.Ins[i].Amount++ // wraps at 2^64-1: still a well-defined transaction
-			compare(m, st, true)
+			out = append(out, m)
 			m = clone()
 			m.Ins[i].Amount--
-			compare(m, st, true)
+			out = append(out, m)
 		}
 		if in.Kind == inBTM || in.Kind == inA || in.Kind == inB || in.Kind == inVeto {
 			for a := 0; a < 3; a++ {
 				if a != in.Asset {
 					m := clone()
 					m.Ins[i].Asset = a
-					compare(m, st, true)
+					out = append(out, m)
 				}
 			}
 		}
 		if len(c.Ins) > 1 {
 			m := clone()
 			m.Ins = append(m.Ins[:i], m.Ins[i+1:]...)
-			compare(m, st, true)
+			out = append(out, m)
 		}
 		m := clone()
 		dup := in
 		dup.Tag = 9 // a different spent output / nonce with the same value
 		m.Ins = append(m.Ins, dup)
-		compare(m, st, true)
+		out = append(out, m)
 	}
 	for j, o := range c.Outs {
 		m := clone()
 		m.Outs[j].Amount++
-		compare(m, st, true)
+		out = append(out, m)
 		m = clone()
 		m.Outs[j].Amount--
-		compare(m, st, true)
+		out = append(out, m)
 		for a := 0; a < 3; a++ {
 			if a != o.Asset {
 				m := clone()
 				m.Outs[j].Asset = a
-				compare(m, st, true)
+				out = append(out, m)
 			}
 		}
 		if len(c.Outs) > 1 {
 			m := clone()
 			m.Outs = append(m.Outs[:j], m.Outs[j+1:]...)
-			compare(m, st, true)
+			out = append(out, m)
 		}
 		m = clone()
 		m.Outs = append(m.Outs, o)
-		compare(m, st, true)
+		out = append(out, m)
 	}
+	return out
 }
 
 // ---------------------------------------------------------------------------
 
+// request to a worker process: one shape (and, after a death, a part of its batch families)
+type request struct {
+	Shape int
+	Sel   selection
+}
+
+func tierIsThorough() bool {
+	t := os.Getenv("VERIF_TIER") == "thorough"
+	for _, a := range os.Args[1:] {
+		if a == "thorough" {
+			t = true
+		} else if a == "quick" {
+			t = false
+		}
+	}
+	return t
+}
+
+func bounds(thorough bool) (int, int) {
+	if thorough {
+		return 3, 3
+	}
+	return 2, 2
+}
+
+// serve = the worker side: enumerate one shape. A panic inside a ValidateTxs worker goroutine cannot be
+// recovered; it kills this process and the coordinator attributes the death to the request.
+func serve() {
+	thorough := tierIsThorough()
+	all := shapes(bounds(thorough))
+	sc := newScaffold(os.Getpid())
+	startBatchWatchdog()
+	par.Serve(func(raw json.RawMessage) interface{} {
+		var rq request
+		if err := json.Unmarshal(raw, &rq); err != nil || rq.Shape < 0 || rq.Shape >= len(all) {
+			ev.Fatal("C01 worker: bad request %s", raw)
+		}
+		st := newStats()
+		enumerate(all[rq.Shape], thorough, st, sc, rq.Sel)
+		return st
+	})
+}
+
+func firstPanicLine(stderr string) string {
+	for _, l := range strings.Split(stderr, "\n") {
+		if strings.HasPrefix(l, "panic:") || strings.HasPrefix(l, "fatal error:") {
+			return l
+		}
+	}
+	return "(no panic line in the worker's output)"
+}
+
 func main() {
+	if par.IsWorker() {
+		serve()
+	}
 	run := ev.Start("C01", "exploration")
-	maxIn, maxOut := run.Pick(2, 3), run.Pick(2, 3)
-	run.Set("rule", "every transaction shape with 1..N inputs from {coinbase, BTM spend, asset-A spend, asset-B spend, issuance of A, BTM veto} (ordered sequences up to 2 inputs, multisets at 3) and 1..N outputs from {original, vote, retirement} x {BTM, A, B} (multisets); every input amount from a boundary alphabet ({0,1,2,2^31,2^63-2,2^63-1,2^63,2^64-1} for small shapes, documented subsets for larger ones: coverage.alphabets), every output amount from the fixed alphabet plus balance-1/balance/balance+1 of the running per-asset sum (and balance-2^31 for BTM); shapes the ledger rejects whatever the amounts (unsourced output asset, non-BTM vote, misplaced coinbase) get one assignment when arity>3; then every single-field mutation (amount+-1, asset swap, drop, duplicate of each input/output) of each transaction that validated. Non-trivial = an enumerated transaction that passed ValidateTx (distinct by construction: distinct shape or amounts); mutants that validated are counted separately.")
+	if run.Thorough() != tierIsThorough() {
+		ev.Fatal("tier mismatch between coordinator and workers")
+	}
+	maxIn, maxOut := bounds(run.Thorough())
+	run.Set("rule", "every transaction shape with 1..N inputs from {coinbase, BTM spend, asset-A spend, asset-B spend, issuance of A, BTM veto} (ordered sequences up to 2 inputs, multisets at 3) and 1..N outputs from {original, vote, retirement} x {BTM, A, B} (multisets); every input amount from a boundary alphabet ({0,1,2,2^31,2^63-2,2^63-1,2^63,2^64-1} for small shapes, documented subsets for larger ones: coverage.alphabets), every output amount from the fixed alphabet plus balance-1/balance/balance+1 of the running per-asset sum (and balance-2^31 for BTM); shapes the ledger rejects whatever the amounts (unsourced output asset, non-BTM vote, misplaced coinbase) get one assignment when arity>3; then every single-field mutation (amount+-1, asset swap, drop, duplicate of each input/output) of each transaction that validated, validated alone (ValidateTx). Batch part (ValidateTxs): for every validated transaction A of a shape of arity <= 3 (quick) / <= 4 (thorough), with M ranging over the single-field mutants of A (accepted or not): the ordered sequences [A A], [A M], [M A] (for arity <= 3 in the thorough tier also [M N] and every ordered triple of A and two different mutants), each handled in order by ONE worker goroutine of ValidateTxs that handled nothing else of interest (schedule forced through the program converter), and A followed by all its mutants as one batch under the runtime's own schedule; every verdict compared with the ledger and with the verdict alone. Non-trivial = an enumerated transaction that passed ValidateTx (distinct by construction: distinct shape or amounts); mutants that validated are counted separately.")
 	run.Set("alphabets", map[string]interface{}{
 		"quick":    "arity<=3: in/out fixed = full8; arity 4: in = {0,1,2^31,2^63-1,2^63}, out fixed = {0,1,2^63-1,2^63}",
 		"thorough": "<=2x2: full8/full8; 1x3,3x1: {0,1,2^31,2^63-1,2^63}; 2x3,3x2: in {1,2^31,2^63-1,2^63} out fixed {1,2^63-1}; 3x3: in {1,2^31,2^63-1} out fixed {1,2^63-1}; balance-relative output amounts always added",
+		"batch":    "quick: sequences of length 2 containing A for shapes of arity <= 3; thorough: the same for arity <= 4, and for arity <= 3 every ordered pair and every ordered triple containing A over {A} + mutants; two schedules each (one worker for the whole sequence / all of the family as one free batch)",
 	})
-	run.Assume("all control/issuance programs are OP_TRUE (retirements OP_FAIL), SerializedSize is set by hand to 300 because amounts above 2^63-1 cannot be serialised; transactions are injected at the TxData level (types.NewTx -> MapTx -> validation.ValidateTx)")
-	run.Assume("a coinbase input is worth the sum of all output amounts, as BTM (this is its definition: it has no amount of its own); a transaction containing a coinbase is validated as transaction 0 of its block")
+	run.Assume("all control/issuance programs are OP_TRUE (retirements OP_FAIL), SerializedSize is set by hand to 300 because amounts above 2^63-1 cannot be serialised; transactions are injected at the TxData level (types.NewTx -> MapTx -> validation.ValidateTx / ValidateTxs)")
+	run.Assume("a coinbase input is worth the sum of all output amounts, as BTM (this is its definition: it has no amount of its own); a transaction containing a coinbase is validated as transaction 0 of its block; in the batch part the block is the one whose transaction 0 is A")
 	run.Assume("completeness side: 'well-formed' = conserved, every amount and per-asset input total <= 2^63-1, every output asset has an input, a coinbase only as the single input, vote outputs BTM >= 10^8; fee >= 10^7 counts as gas-sufficient for OP_TRUE programs and size 300")
 	run.Assume("the amount alphabet contains every point where a checked-arithmetic branch flips (0, 1, 2^63-1 | 2^63, 2^64-1 | wrap) - an argument, not a proof (DESIGN.md section 5)")
+	run.Assume("batch part: ValidateTxs runs NumCPU+1 worker goroutines that take the transactions from one FIFO channel (read from the code; if there were fewer the forced schedule would hang and the run ends as an infrastructure error, if there were more the sequence could be split over workers and the part would silently lose strength); what one worker does depends only on what that worker handled before, so sequences per worker are the whole schedule space; sequences longer than 2 (3 for arity <= 3, thorough) and alphabets other than {A} + single-field mutants of A are outside the bound; error classes of two rejections are not compared (the mux meets the broken rules in map order)")
 
 	all := shapes(maxIn, maxOut)
 	run.Set("shapes", len(all))
 	results := make([]*stats, len(all))
-	jobs := make(chan int)
-	var wg sync.WaitGroup
-	nw := runtime.NumCPU()
-	if nw > 8 {
-		nw = 8
-	}
-	var stopMu sync.Mutex
-	stopped := false
-	stop := func() bool {
-		stopMu.Lock()
-		defer stopMu.Unlock()
-		if !stopped && run.OutOfTime() {
-			stopped = true
-		}
-		return stopped
-	}
-	for w := 0; w < nw; w++ {
-		wg.Add(1)
-		go func() {
-			defer wg.Done()
-			for i := range jobs {
-				st := newStats()
-				enumerate(all[i], run.Thorough(), st, stop)
-				results[i] = st
-			}
-		}()
-	}
 	// big shapes first so that the tail is short
 	order := make([]int, len(all))
 	for i := range order {
@@ -786,18 +862,98 @@ func main() {
 		sa, sb := all[order[a]], all[order[b]]
 		return len(sa.ins)+len(sa.outs) > len(sb.ins)+len(sb.outs)
 	})
-	for _, i := range order {
-		if stop() {
-			break
-		}
-		jobs <- i
+	reqs := make([]interface{}, len(order))
+	for k, i := range order {
+		reqs[k] = request{Shape: i}
 	}
-	close(jobs)
-	wg.Wait()
+	nw := runtime.NumCPU()
+	if nw > 8 {
+		nw = 8
+	}
+	pool := par.NewPool(nw, 4000)
+	var died []int
+	diedErr := map[int]string{}
+	decode := func(r par.Result) *stats {
+		if r.Died {
+			if strings.Contains(r.Stderr, "INFRA-ERROR") {
+				fmt.Fprintln(os.Stderr, r.Stderr)
+				ev.Fatal("C01: a worker process ended with an infrastructure error")
+			}
+			return nil
+		}
+		st := newStats()
+		if err := json.Unmarshal(r.Resp, st); err != nil {
+			ev.Fatal("C01: worker response: %v", err)
+		}
+		return st
+	}
+	pool.Do(reqs, func(r par.Result) {
+		i := order[r.Index]
+		if st := decode(r); st != nil {
+			results[i] = st
+		} else {
+			died = append(died, i)
+			diedErr[i] = r.Stderr
+		}
+		if run.OutOfTime() {
+			pool.Stop()
+		}
+	})
+
+	// a worker process that died (twice: the second time alone in a fresh process) while it enumerated a
+	// shape: only the batch part can do that (everything else runs under recover). Narrow the first such
+	// shape down to a family and then to one sequence, each attempt in a process of its own.
+	sort.Ints(died)
+	if len(died) > 0 {
+		i := died[0]
+		what := fmt.Sprintf("the process that ran the batch part for shape %s died: %s", all[i], firstPanicLine(diedErr[i]))
+		replay := map[string]interface{}{"shape": all[i].String(), "worker_output": diedErr[i], "shapes_whose_worker_died": len(died)}
+		one := func(sel selection) (st *stats, dead bool, out string) {
+			pool.Do([]interface{}{request{Shape: i, Sel: sel}}, func(r par.Result) { st, dead, out = decode(r), r.Died, r.Stderr })
+			return
+		}
+		if cnt, dead, _ := one(selection{Mode: "count"}); !dead && cnt != nil {
+			fam := -1
+			var freqs []interface{}
+			for f := 0; f < cnt.Validated; f++ {
+				freqs = append(freqs, request{Shape: i, Sel: selection{Mode: "family", Family: f}})
+			}
+			pool.Do(freqs, func(r par.Result) {
+				if r.Died && (fam < 0 || r.Index < fam) {
+					fam = r.Index
+				}
+			})
+			if fam >= 0 {
+				replay["family"] = fam
+				if lst, dead, _ := one(selection{Mode: "list", Family: fam}); !dead && lst != nil {
+					what = fmt.Sprintf("the process that ran the batch part for the family of %s died: %s", lst.Listing[0], firstPanicLine(diedErr[i]))
+					seq := -1
+					var sreqs []interface{}
+					for q := range lst.Listing {
+						sreqs = append(sreqs, request{Shape: i, Sel: selection{Mode: "seq", Family: fam, Seq: q}})
+					}
+					out := ""
+					pool.Do(sreqs, func(r par.Result) {
+						if r.Died && (seq < 0 || r.Index < seq) {
+							seq, out = r.Index, r.Stderr
+						}
+					})
+					if seq >= 0 {
+						replay["sequence"] = lst.Listing[seq]
+						replay["worker_output"] = out
+						what = fmt.Sprintf("ValidateTxs kills the process on %s: %s (every transaction of it, validated alone with ValidateTx, returns a verdict)", lst.Listing[seq], firstPanicLine(out))
+					}
+				}
+			}
+		}
+		run.Violation("batch:validatetxs-kills-the-process", what, replay)
+	}
+	run.Set("shapes_whose_worker_died", len(died))
 
 	// merge in shape order (deterministic)
 	outcomes := map[string]int{}
 	refClasses := map[string]int{}
+	batchOutcomes := map[string]int{}
 	obs := map[string]string{}
 	var tot stats
 	shapesValidated := 0
@@ -806,34 +962,45 @@ func main() {
 		if st == nil {
 			continue
 		}
-		tot.evals += st.evals
-		tot.enumerated += st.enumerated
-		tot.mutants += st.mutants
-		tot.validated += st.validated
-		tot.validatedMutants += st.validatedMutants
-		tot.overflowAdjacentAccepted += st.overflowAdjacentAccepted
-		tot.overflowAdjacentRejected += st.overflowAdjacentRejected
-		tot.gasSufficientAccepted += st.gasSufficientAccepted
-		if st.validated > 0 {
+		tot.Evals += st.Evals
+		tot.Enumerated += st.Enumerated
+		tot.Mutants += st.Mutants
+		tot.Validated += st.Validated
+		tot.ValidatedMutants += st.ValidatedMutants
+		tot.OverflowAdjacentAccepted += st.OverflowAdjacentAccepted
+		tot.OverflowAdjacentRejected += st.OverflowAdjacentRejected
+		tot.GasSufficientAccepted += st.GasSufficientAccepted
+		if st.ForcedUnavailable != "" {
+			tot.ForcedUnavailable = st.ForcedUnavailable
+		}
+		tot.Batches += st.Batches
+		tot.BatchRuns += st.BatchRuns
+		tot.BatchVerdicts += st.BatchVerdicts
+		tot.BatchAccepted += st.BatchAccepted
+		tot.BatchesSameInputs += st.BatchesSameInputs
+		for k, v := range st.BatchOutcomes {
+			batchOutcomes[k] += v
+		}
+		if st.Validated > 0 {
 			shapesValidated++
 		}
-		perArity[fmt.Sprintf("%dx%d", len(all[i].ins), len(all[i].outs))] += st.enumerated
-		for k, v := range st.outcomes {
+		perArity[fmt.Sprintf("%dx%d", len(all[i].ins), len(all[i].outs))] += st.Enumerated
+		for k, v := range st.Outcomes {
 			outcomes[k] += v
 		}
-		for k, v := range st.refClasses {
+		for k, v := range st.RefClasses {
 			refClasses[k] += v
 		}
-		for k, v := range st.obs {
+		for k, v := range st.Obs {
 			if _, ok := obs[k]; !ok {
 				obs[k] = v
 			}
 		}
-		for _, v := range st.viols {
-			run.Violation(v.key, v.what, map[string]interface{}{"case": v.c, "text": v.c.String(), "detail": v.extra})
+		for _, v := range st.Viols {
+			run.Violation(v.Key, v.What, map[string]interface{}{"case": v.C, "text": v.C.String(), "detail": v.Extra})
 		}
-		if len(st.sample) > 0 && i%(len(all)/10+1) == 0 {
-			run.Sample(st.sample[0])
+		if len(st.Sample) > 0 && i%(len(all)/10+1) == 0 {
+			run.Sample(st.Sample[0])
 		}
 	}
 	var oc []string
@@ -846,17 +1013,27 @@ func main() {
 			run.Outcome(k)
 		}
 	}
-	run.Set("evaluations", tot.evals)
-	run.Set("enumerated_transactions", tot.enumerated)
-	run.Set("mutants_of_validated", tot.mutants)
-	run.Set("distinct_nontrivial", tot.validated)
-	run.Set("validated_mutants", tot.validatedMutants)
+	run.Set("evaluations", tot.Evals)
+	run.Set("enumerated_transactions", tot.Enumerated)
+	run.Set("mutants_of_validated", tot.Mutants)
+	run.Set("distinct_nontrivial", tot.Validated)
+	run.Set("validated_mutants", tot.ValidatedMutants)
 	run.Set("shapes_with_a_validated_transaction", shapesValidated)
 	run.Set("enumerated_per_arity", perArity)
 	run.Set("reference_classes", refClasses)
-	run.Set("out_of_range_cases_rejected", tot.overflowAdjacentRejected)
-	run.Set("out_of_range_cases_accepted", tot.overflowAdjacentAccepted)
-	run.Set("gas_sufficient_accepted", tot.gasSufficientAccepted)
+	run.Set("out_of_range_cases_rejected", tot.OverflowAdjacentRejected)
+	run.Set("out_of_range_cases_accepted", tot.OverflowAdjacentAccepted)
+	run.Set("gas_sufficient_accepted", tot.GasSufficientAccepted)
+	if tot.ForcedUnavailable != "" {
+		run.Set("batch_one_worker_schedule_not_run", tot.ForcedUnavailable)
+		run.Capped("batch part: " + tot.ForcedUnavailable + "; only the free schedule was run for batches")
+	}
+	run.Set("batch_sequences", tot.Batches)
+	run.Set("batch_sequences_with_identical_inputs", tot.BatchesSameInputs)
+	run.Set("batch_verdicts_compared", tot.BatchVerdicts)
+	run.Set("batch_verdicts_accepted", tot.BatchAccepted)
+	run.Set("batch_outcomes", batchOutcomes)
+	run.Set("batch_workers_assumed", runtime.NumCPU()+1)
 	run.Set("max_inputs", maxIn)
 	run.Set("max_outputs", maxOut)
 	if len(obs) > 0 {
